@@ -926,6 +926,11 @@ class Interp:
                 return getattr(o, name)
             except AttributeError as e:
                 raise PyRaise("AttributeError", str(e))
+        if type(o).__name__ in ("SpVal", "SpBool"):
+            try:
+                return getattr(o, name)
+            except AttributeError as e:
+                raise PyRaise("AttributeError", str(e))
         raise Unsupported(f"attribute {name} of {type(o).__name__}")
 
     def bind(self, v, o, c):
@@ -1199,6 +1204,9 @@ class Interp:
             return self.lib.symseq_binop(self, op, a, b)
         if isinstance(a, np.ndarray) or isinstance(b, np.ndarray):
             return self.lib.np_binop(self, op, a, b)
+        if type(a).__name__ == "SpVal" or type(b).__name__ == "SpVal":
+            from .spval import sp_binop
+            return sp_binop(op, a, b)
         if _scalar(a) and _scalar(b) and a is not None and b is not None:
             f = BINOPS.get(op)
             if f is None:
